@@ -167,9 +167,10 @@ theorem assemble_correct (rows : List CRow) (K : List Cone) (σ : Nat → ℝ) (
           + (((rows.getD i ⟨[], 0, false⟩).const : Rat) : ℝ) :=
   assemble_val rows K σ i hi
 
-/-- columns are the sorted distinct ids that occur: distinct components get distinct columns -/
+/-- columns are the sorted distinct ids that occur with a nonzero value (zero-valued placeholder entries
+    create no column): distinct components get distinct columns -/
 theorem cols_sorted (rows : List CRow) : (sortedCols rows).Pairwise (· < ·) ∧
-    ∀ id, id ∈ sortedCols rows ↔ ∃ r ∈ rows, ∃ e ∈ r.entries, e.1 = id :=
+    ∀ id, id ∈ sortedCols rows ↔ ∃ r ∈ rows, ∃ e ∈ r.entries, e.1 = id ∧ e.2 ≠ 0 :=
   sortedCols_spec rows
 
 /-- `-1` exactly for ids that occur nowhere; otherwise the column that carries the id -/
